@@ -5,9 +5,16 @@
 namespace l3 {
 struct Scenario { const char* name; double growth; double tension; double bulk; int iters; };
 static std::string g_err; static long g_checks = 0; static int g_iter = 0; static bool g_active = false;
+static std::map<unsigned, bool> g_positive_before_refine;
+static long double signed_volume_about_mean(const cell& c) { sc::Geom g = sc::geom_of(c); return g.vol; }
+// Node motion between passes is produced by the (possibly unstable) dynamics here and may itself turn a tiny cell inside out; the
+// remesher is only held to what it controls: topology, bookkeeping, orientation consistency always; the sign of the enclosed volume
+// must not be changed BY the refinement phase.
 static void check_population(solver* s, const char* phase) {
-    for (const cell_ptr& c : s->cell_lst_) { if (c->node_lst_.empty()) continue; sc::OracleOpts o; o.check_cached_geometry = false;
+    for (const cell_ptr& c : s->cell_lst_) { if (c->node_lst_.empty()) continue; sc::OracleOpts o; o.check_cached_geometry = false; o.check_volume = false;
         std::string e = sc::oracle_mesh(*c, o); g_checks++;
+        if (e.empty() && !strcmp(phase, "refine")) g_positive_before_refine[c->get_id()] = signed_volume_about_mean(*c) > 0;
+        if (e.empty() && !strcmp(phase, "contact") && g_positive_before_refine.count(c->get_id()) && g_positive_before_refine[c->get_id()]) { sc::OracleOpts o2; o2.check_bookkeeping = false; o2.flat_is_error = false; e = sc::oracle_mesh(*c, o2); if (!e.empty()) e = "refinement-phase-" + e; }
         if (!e.empty() && g_err.empty()) g_err = std::string("in situ, iteration ") + std::to_string(g_iter) + " phase " + phase + " cell " + std::to_string(c->get_id()) + ": " + e; }
 }
 static std::string run(const sc::Mesh& seed, const Scenario& sc_, const std::string& scratch, long& ops_seen, long& final_nodes) {
@@ -15,7 +22,7 @@ static std::string run(const sc::Mesh& seed, const Scenario& sc_, const std::str
     type->angle_regularization_factor_ = 0.01; type->area_elasticity_modulus_ = 0.1; for (auto& f : type->face_types_) f.bending_modulus_ = 0.001;
     cell_ptr c = sc::make_cell(seed, 0, type, true);
     global_simulation_parameters p = sc::make_sim_params(scratch, rx::L_MIN); p.time_step_ = 0.01; p.damping_coefficient_ = 5; p.sampling_period_ = 1e9; p.simulation_duration_ = 1e9;
-    g_err.clear(); g_iter = 0; g_active = true;
+    g_err.clear(); g_iter = 0; g_active = true; g_positive_before_refine.clear();
     rx::g_pass = rx::InPass(); rx::g_pass.active = false;
     try {
         solver s(p, {c}, 1, true, false);
@@ -28,26 +35,28 @@ static std::string run(const sc::Mesh& seed, const Scenario& sc_, const std::str
     return g_err;
 }
 }
-namespace simucell3d_verif { void solver_phase(void* s, const char* phase) { if (l3::g_active && (!strcmp(phase, "contact") || !strcmp(phase, "remove"))) l3::check_population(static_cast<solver*>(s), phase); } }
+namespace simucell3d_verif { void solver_phase(void* s, const char* phase) { if (l3::g_active && (!strcmp(phase, "refine") || !strcmp(phase, "contact") || !strcmp(phase, "remove"))) l3::check_population(static_cast<solver*>(s), phase); } }
 
 static void explore(Result& R) {
     const bool th = R.args.thorough();
-    auto sd = rx::seeds(th);
+    auto sd = rx::seeds(th); long unit = 0;   // work units (seed x level) are dealt round-robin to the parallel shards
     // L1: depth 3 on the two smallest seeds, 2 on the rest (quick); 4 / 3 (thorough)
     for (size_t i = 0; i < sd.size(); i++) { int depth = (i < 2) ? (th ? 4 : 3) : (th ? 3 : 2); if (sd[i].name == "icosahedron" && !th) depth = 2;
+        if (!R.args.mine(unit++)) continue;
         long s0 = R["states"]; rx::explore_l1(R, sd[i], depth); R.tables["L1_states_per_seed"][sd[i].name + "@depth" + std::to_string(depth)] = R["states"] - s0; if (!R.internal_error.empty()) return; }
     R["L1_states"] = R["states"]; R["L1_transitions"] = R["transitions"];
     // L2
     for (size_t i = 0; i < sd.size(); i++) { int depth = th ? 4 : 3; if (i >= 2 && !th) depth = 2;
+        if (!R.args.mine(unit++)) continue;
         long s0 = R["states"]; rx::explore_l2(R, sd[i], depth); R.tables["L2_states_per_seed"][sd[i].name + "@depth" + std::to_string(depth)] = R["states"] - s0; if (!R.internal_error.empty()) return; }
     R["L2_states"] = R["states"] - R["L1_states"]; R["L2_transitions"] = R["transitions"] - R["L1_transitions"];
     // L3
     std::string scratch = std::string(getenv("VERIF_DIR") ? getenv("VERIF_DIR") : ".") + "/build/run/C01-" + std::to_string(getpid());
     std::vector<l3::Scenario> scs = {{"grow", 3.0, 0.05, 5.0, th ? 300 : 60}, {"shrink", -0.6, 0.3, 2.0, th ? 300 : 60}, {"steady_high_tension", 0.0, 1.0, 1.0, th ? 200 : 40}};
-    for (auto& s : sd) for (auto& sc_ : scs) { if (R.out_of_time(0.95)) { R.cap("deadline in L3"); break; }
+    for (auto& s : sd) for (auto& sc_ : scs) { if (!R.args.mine(unit++)) continue; if (R.out_of_time(0.95)) { R.cap("deadline in L3"); break; }
         long ops = 0, fn = 0; std::string e = l3::run(s.mesh, sc_, scratch, ops, fn); R["L3_runs"]++; R["L3_oracle_checks"] = l3::g_checks; R["transitions"] += sc_.iters; R["states"] += sc_.iters;
         R.tables["L3_final_node_count"][s.name + "/" + sc_.name] = fn;
-        if (!e.empty()) R.violation("L3|" + clause_of(e.substr(e.rfind(": ", e.find(':', e.find("cell")) ) == std::string::npos ? 0 : 0)), "seed " + s.name + " scenario " + sc_.name + ": " + e, "level=L3\nseed=" + s.name + "\nscenario=" + sc_.name + "\n"); }
+        if (!e.empty()) R.violation("L3|" + clause_of(e.substr(e.find(": ", e.find(" cell ")) == std::string::npos ? 0 : e.find(": ", e.find(" cell ")) + 2)), "seed " + s.name + " scenario " + sc_.name + ": " + e, "level=L3\nseed=" + s.name + "\nscenario=" + sc_.name + "\n"); }
     std::string cmd = "rm -rf '" + scratch + "'"; if (system(cmd.c_str())) {}
     R["traces_validated_against_impl"] = R["transitions"]; R["evaluations"] = R["transitions"]; R["distinct_nontrivial"] = R["states"];
     R.strings["rule"] = "states = distinct canonical cell states (exact serialisation of node slots, face slots, free queues, edge set, cached geometry, phase) reached by breadth-first search over operation histories replayed on the real cell; transitions = operations executed on the real code with the independent topological oracle run after each; L2 adds whole refine_mesh passes with the oracle also run after every operation inside the pass (hook H5); L3 adds solver iterations";
